@@ -197,7 +197,22 @@ def main():
             mod.translate(ctx)
         lean = prove(ctx, mod)
         if lean["build_ok"]:
-            mod.correspond(ctx)
+            try:
+                mod.correspond(ctx)
+            except Exception as e:  # noqa
+                # an exception that escaped from LIBRARY code during a scenario that runs to the end on a tree where the
+                # property holds is a failing input on the real code, not a harness fault
+                frames = traceback.extract_tb(e.__traceback__)
+                lib = [f for f in frames if "/src/pptx/" in f.filename]
+                if not lib:
+                    raise
+                traceback.print_exc()
+                last_h = [f for f in frames if "/harness/" in f.filename][-1]
+                ctx.fail(f"library-raised:{type(e).__name__}@{lib[-1].filename.split('/src/')[-1]}",
+                         f"{type(e).__name__}: {str(e)[:200]} raised from {lib[-1].filename.split('/src/')[-1]}:{lib[-1].lineno} ({lib[-1].name}) "
+                         f"while the check was at {last_h.filename.split('/')[-1]}:{last_h.lineno} ({last_h.name}); the scenario runs to its end on a tree "
+                         f"where the property holds",
+                         {"where": f"{last_h.filename.split('/')[-1]}:{last_h.lineno}", "exception": type(e).__name__})
         else:
             # model cannot run; still evaluate the property on the real code
             if hasattr(mod, "search"):
